@@ -1416,9 +1416,11 @@ class AstEval:
         """Recursive assignment."""
         if isinstance(lhs, (ast.Tuple, ast.List)):
             try:
-                vals = [*(iter(val))]
-            except Exception:
+                val_iter = iter(val)
+            except TypeError:
                 raise TypeError("cannot unpack non-iterable object")  # pylint: disable=raise-missing-from
+            # an exception raised while iterating belongs to the script and propagates unchanged
+            vals = [*val_iter]
             got_star = 0
             for lhs_elt in lhs.elts:
                 if isinstance(lhs_elt, ast.Starred):
